@@ -209,6 +209,12 @@ def check(ctx):
         for x in ast.walk(h.node):
             if isinstance(x, ast.BinOp) and isinstance(x.op, ast.Add) and is_prefix(x.left):
                 pref.append(x)
+            if isinstance(x, ast.JoinedStr) and len(x.values) >= 2 and isinstance(x.values[0], ast.FormattedValue) and is_prefix(x.values[0].value) \
+                    and isinstance(x.values[1], ast.FormattedValue):
+                pref.append(x)          # f"{prefix}{key}"
+            if isinstance(x, ast.BinOp) and isinstance(x.op, ast.Mod) and isinstance(x.left, ast.Constant) and x.left.value == "%s%s" \
+                    and isinstance(x.right, ast.Tuple) and x.right.elts and is_prefix(x.right.elts[0]):
+                pref.append(x)          # "%s%s" % (prefix, key)
             if isinstance(x, ast.Call) and isinstance(x.func, ast.Name) and x.func.id == h.name and any(is_prefix(a_) for a_ in x.args):
                 handed.append(x)
     okp = keyed and (len(pref) >= 2 or (len(pref) >= 1 and bool(handed)))
